@@ -465,69 +465,204 @@ class Gen:
         f = r.choice(cons)
         return {"f": f, "a": [self.gterm(p, s, depth - 1) for s in p.funcs[f - 1]["ins"]]}
 
-    def sched(self, p, depth, safe_sat):
+    def sched(self, p, depth, safe_sat, gterm=None):
         r = self.rng
+        gterm = gterm or (lambda sort, d: self.gterm(p, sort, d))
         names = [rs["name"] for rs in p.rsets]
         if depth == 0 or r.random() < 0.5:
             until = []
             if r.random() < 0.15:
-                c = check_present(p, self.gterm(p, "E", 1))
+                c = check_present(p, gterm("E", 1))
                 until = c["facts"]
             return dict(k="run", rs=r.choice(names), until=until)
         k = r.choice(["rep", "seq", "sat"] if safe_sat else ["rep", "seq"])
-        b = [self.sched(p, depth - 1, safe_sat) for _ in range(r.choice([1, 1, 2]))]
+        b = [self.sched(p, depth - 1, safe_sat, gterm) for _ in range(r.choice([1, 1, 2]))]
         if k == "rep":
             return dict(k="rep", n=r.choice([0, 1, 2, 3]), b=b)
         return dict(k=k, b=b)
 
+    # -- invalid commands (C09): text that must be rejected without effect.
+    # Each entry: (text, follow-up probes [(text, expected ok)]); names are unique per use.
+    def bad_cmd(self, p, st, n):
+        r = self.rng
+        un = [fn["name"] for fn in p.funcs if fn["kind"] == "con" and fn["ins"] == ["E"] and fn["out"] == "E" and p.f(fn["name"]) in st["declf"]]
+        f = un[0] if un else "F"
+        fns = [fn for fn in p.funcs if fn["kind"] == "fn" and fn["out"] == "i64" and fn["ins"] == ["E"] and p.f(fn["name"]) in st["declf"]]
+        rs = p.rsets[0]["name"]
+        cands = [
+            ("(%s)" % f, []),
+            ("(%s (A) (B))" % f, []),
+            ("(%s 1)" % f, []),
+            ("(union 1 2)", []),
+            ("(set (%s (A)) (B))" % f, []),
+            ("(Zork%d (A))" % n, []),
+            ("(union (A) (Zork%d))" % n, []),
+            ("(run-schedule (run nosuch%d))" % n, []),
+            ("(run nosuch%d 1)" % n, []),
+            ("(rule ((= x (%s y))) ((union x z)) :ruleset %s)" % (f, rs), []),
+            ("(rule ((= x (%s y))) ((Zork%d x)) :ruleset %s)" % (f, n, rs), []),
+            ("(rule ((= x (%s y))) ((union x y)) :ruleset nosuch%d)" % (f, n), []),
+            ("(rule ((= x (%s y)) (= x 1)) ((union x y)) :ruleset %s)" % (f, rs), []),
+            ("(constructor A () E)", []),
+            ("(sort E)", []),
+            ("(ruleset %s)" % rs, []),
+            ("(function gbad%d (i64) i64 :merge (bogus old new))" % n,
+             [("(function gbad%d (i64) i64 :merge (min old new))" % n, 1), ("(set (gbad%d 1) 2)" % n, 1)]),
+            ("(function gbad%d (i64) Nope :merge (min old new))" % n, [("(function gbad%d (i64) i64 :merge (min old new))" % n, 1)]),
+            ("(function gbad%d (Nope) i64 :merge (min old new))" % n, [("(function gbad%d (i64) i64 :merge (max old new))" % n, 1)]),
+            ("(constructor cbad%d (E Nope) E)" % n, [("(constructor cbad%d (E) E)" % n, 1)]),
+            ("(datatype Dt%d (Da%d) (Db%d Nope))" % (n, n, n), [("(sort Dt%d)" % n, 1), ("(constructor Da%d () Dt%d)" % (n, n), 1)]),
+            ("(relation rbad%d (Nope))" % n, [("(relation rbad%d (E))" % n, 1)]),
+            ("(sort Sbad%d (Vec Nope))" % n, [("(sort Sbad%d (Vec E))" % n, 1)]),
+            ("(union (A)", []),
+            (")", []),
+            ("(check", []),
+            ("(check (= (A) \"unterminated))", []),
+            ("(check (= (A) 1))", []),
+            ("(check (= (A) (Zork%d)))" % n, []),
+            ("(extract (Zork%d))" % n, []),
+            ("(subsume (Zork%d (A)))" % n, []),
+            ("(delete (Zork%d (A)))" % n, []),
+            ("(let A (B))", []),
+        ]
+        if fns:
+            g = fns[0]["name"]
+            cands += [("(set (%s (A)) (A))" % g, []), ("(set (%s 1) 1)" % g, []), ("(set (%s (A) (A)) 1)" % g, []),
+                      ("(check (= (%s (A)) (A)))" % g, []),
+                      ("(rule ((= x (%s y))) ((set (%s x) (%s y))) :ruleset %s)" % (f, g, g, rs), [])]
+        if any(q["kind"] == "comb" for q in p.rsets):
+            cands.append(("(rule ((= x (%s y))) ((union x y)) :ruleset comb)" % f, []))
+        return r.choice(cands)
+
     def session(self, sid, mode=None):
+        """A session: declarations, then commands.  Generator-side bookkeeping (which functions /
+        rules are declared in which e-graph, push depth) only serves to emit well-formed commands;
+        the expected outcome of every command is decided by the specification."""
         r, pf = self.rng, self.pf
         p = self.prog()
+        nlate = pf.get("late_funcs", 0)
+        latef = []
+        for i in range(nlate):
+            if r.random() < 0.5:
+                latef.append(p.add("X%d" % i, "con", ["E"], "E"))
+            else:
+                latef.append(p.add("fx%d" % i, "fn", ["E"], "i64", merge=r.choice(["min", "max"])))
         late = [i + 1 for i in range(len(p.rules)) if r.random() < pf["late_rules"]]
         active = [i + 1 for i in range(len(p.rules)) if (i + 1) not in late]
-        setup = decl_text(p) + [rule_text(p, p.rules[i - 1]) for i in active]
-        cmds = []
-        depthp = 0
-        fns = self.tables(p, lambda fn: fn["kind"] == "fn")
-        cons = self.tables(p, lambda fn: fn["kind"] == "con")
+        declared = [i + 1 for i in range(len(p.funcs)) if (i + 1) not in latef]
+        decls = decl_text(p)
+        ftext = {}
+        fi = 0
+        for line in decls:
+            if line.startswith(("(constructor", "(relation", "(function")):
+                ftext[fi + 1] = line
+                fi += 1
+        setup = [line for line in decls if line not in [ftext[f] for f in latef]]
+        setup += [rule_text(p, p.rules[i - 1]) for i in active]
+        # generator-side view of each e-graph
+        mk = lambda: dict(declf=set(declared), active=set(active), stack=[], late=list(late), latef=list(latef))
+        slots = [mk()]
+        cur = 0
+        steps = []
+        nbad = [0]
+
+        def emit(c, text=None, slot=None):
+            stp = dict(c={k: v for k, v in c.items() if k != "text"}, text=text or cmd_text(p, c))
+            if len(slots) > 1:
+                stp["slot"] = cur if slot is None else slot
+            steps.append(stp)
+
+        def declared_tables(st, pred):
+            return [f for f in self.tables(p, pred) if f in st["declf"]]
+
+        def gterm(st, sort, depth):
+            if sort == "i64":
+                return {"i": r.randrange(pf["maxint"])}
+            if sort == "bool":
+                return {"i": r.randrange(2)}
+            if sort == "SetI":
+                return {"set": sorted(set(r.randrange(pf["maxint"] + 1) for _ in range(r.randrange(0, 3))))}
+            cons = declared_tables(st, lambda fn: fn["kind"] == "con" and fn["out"] == sort and (depth > 0 or not fn["ins"] or fn["ins"] == ["i64"]))
+            f = r.choice(cons)
+            return {"f": f, "a": [gterm(st, s2, depth - 1) for s2 in p.funcs[f - 1]["ins"]]}
+
         for _ in range(pf["ncmds"]):
+            st = slots[cur]
             x = r.random()
-            if late and r.random() < 0.2:
-                cmds.append(dict(k="rule", r=late.pop(0)))
+            if pf.get("clone", 0) > 0 and r.random() < pf["clone"]:
+                if len(slots) == 1:
+                    import copy
+                    slots.append(copy.deepcopy(slots[0]))
+                    steps.append(dict(op="clone", **{"from": 0}))
+                    for s0 in steps:
+                        pass
+                cur = r.randrange(2)
+                st = slots[cur]
+            fns = declared_tables(st, lambda fn: fn["kind"] == "fn")
+            cons = declared_tables(st, lambda fn: fn["kind"] == "con")
+            if pf.get("bad", 0) > 0 and r.random() < pf["bad"]:
+                nbad[0] += 1
+                text, probes = self.bad_cmd(p, st, nbad[0])
+                emit(dict(k="bad"), text)
+                for ptext, ok in probes:
+                    emit(dict(k="probe", ok=ok), ptext)
+                continue
+            if st["late"] and r.random() < 0.2:
+                emit(dict(k="rule", r=st["late"][0]))
+                st["active"].add(st["late"].pop(0))
+            elif st["latef"] and r.random() < 0.25:
+                f = st["latef"].pop(0)
+                emit(dict(k="fdecl", f=f), ftext[f])
+                st["declf"].add(f)
+            elif pf.get("redecl", 0) > 0 and r.random() < pf["redecl"]:
+                # declaring again what is (or is not any more) declared: the specification decides
+                if r.random() < 0.5 and p.rules:
+                    emit(dict(k="rule", r=r.randrange(len(p.rules)) + 1))
+                elif latef:
+                    f = r.choice(latef)
+                    emit(dict(k="fdecl", f=f), ftext[f])
+                # generator view is updated conservatively below (re-sync not needed: spec decides)
+                continue
             elif x < 0.22:
                 f = r.choice(cons)
                 fn = p.funcs[f - 1]
-                cmds.append(dict(k="ins", t={"f": f, "a": [self.gterm(p, s, pf["depth"] - 1) for s in fn["ins"]]}))
+                emit(dict(k="ins", t={"f": f, "a": [gterm(st, s2, pf["depth"] - 1) for s2 in fn["ins"]]}))
             elif x < 0.40:
-                cmds.append(dict(k="union", a=self.gterm(p, "E", pf["depth"]), b=self.gterm(p, "E", pf["depth"])))
+                emit(dict(k="union", a=gterm(st, "E", pf["depth"]), b=gterm(st, "E", pf["depth"])))
             elif 0.40 <= x < 0.55 and fns:
                 f = r.choice(fns)
                 fn = p.funcs[f - 1]
-                cmds.append(dict(k="set", f=f, a=[self.gterm(p, s, 1) for s in fn["ins"]], v=self.gterm(p, fn["out"], 0)))
+                emit(dict(k="set", f=f, a=[gterm(st, s2, 1) for s2 in fn["ins"]], v=gterm(st, fn["out"], 0)))
             elif 0.55 <= x < 0.55 + pf["subsume"] * 0.3:
-                f = r.choice(self.tables(p, lambda fn: fn["kind"] == "con" and fn["out"] == "E" and fn["ins"]))
+                cs = declared_tables(st, lambda fn: fn["kind"] == "con" and fn["out"] == "E" and fn["ins"])
+                f = r.choice(cs)
                 fn = p.funcs[f - 1]
-                cmds.append(dict(k="subsume", f=f, a=[self.gterm(p, s, 1) for s in fn["ins"]]))
+                emit(dict(k="subsume", f=f, a=[gterm(st, s2, 1) for s2 in fn["ins"]]))
             elif 0.55 <= x < 0.85:
-                cmds.append(dict(k="run", s=self.sched(p, pf["sched_depth"], not pf["growth"] and pf["delete"] == 0)))
+                emit(dict(k="run", s=self.sched(p, pf["sched_depth"], not pf["growth"] and pf["delete"] == 0,
+                                                lambda sort, d: gterm(st, sort, d))))
             elif x < 0.55:
-                cmds.append(dict(k="union", a=self.gterm(p, "E", pf["depth"]), b=self.gterm(p, "E", pf["depth"])))
+                emit(dict(k="union", a=gterm(st, "E", pf["depth"]), b=gterm(st, "E", pf["depth"])))
             elif pf["pushpop"] > 0 and r.random() < pf["pushpop"]:
-                if depthp > 0 and r.random() < 0.5:
-                    cmds.append(dict(k="pop"))
-                    depthp -= 1
+                if st["stack"] and r.random() < 0.5:
+                    emit(dict(k="pop"))
+                    top = st["stack"].pop()
+                    st["declf"], st["active"], st["late"], st["latef"] = top
+                elif r.random() < 0.08:
+                    emit(dict(k="pop"))           # possibly on an empty stack: the specification decides
+                    if st["stack"]:
+                        top = st["stack"].pop()
+                        st["declf"], st["active"], st["late"], st["latef"] = top
                 else:
-                    cmds.append(dict(k="push"))
-                    depthp += 1
+                    emit(dict(k="push"))
+                    st["stack"].append((set(st["declf"]), set(st["active"]), list(st["late"]), list(st["latef"])))
             else:
-                cmds.append(dict(k="run", s=dict(k="run", rs=r.choice([rs["name"] for rs in p.rsets]), until=[])))
+                emit(dict(k="run", s=dict(k="run", rs=r.choice([q["name"] for q in p.rsets]), until=[])))
             if r.random() < pf["checks"]:
                 if r.random() < 0.7:
-                    cmds.append(check_eq(p, self.gterm(p, "E", pf["depth"]), self.gterm(p, "E", pf["depth"])))
+                    c = check_eq(p, gterm(st, "E", pf["depth"]), gterm(st, "E", pf["depth"]))
                 else:
-                    cmds.append(check_present(p, self.gterm(p, "E", pf["depth"])))
-        for i in late:
-            cmds.append(dict(k="rule", r=i))
-        steps = [dict(c={k: v for k, v in c.items() if k != "text" or c["k"] == "bad"}, text=cmd_text(p, c)) for c in cmds]
+                    c = check_present(p, gterm(st, "E", pf["depth"]))
+                emit(c, cmd_text(p, c))
         return dict(id=sid, mode=mode or dict(threads=1, seminaive=True, enc="plain"), prog=p.struct(), active=active,
-                    setup=setup, steps=steps, tables=[fn["name"] for fn in p.funcs])
+                    declared=declared, setup=setup, steps=steps, tables=[fn["name"] for fn in p.funcs])
